@@ -321,8 +321,11 @@ def RM.new (base limit : Nat) (pagesPerBlock units grain heads : Int) : RM :=
   { tab := { heads := heads, cells := #[] }, base := base, limit := limit, highWater := base,
     maxUnits := units, grain := grain, currentUnits := 0, pagesPerBlock := pagesPerBlock }
 
+/-! ### The pinned tree's growth functions (kept as the record of defect F7: `raise_high_water`
+clamped with swapped operands and `current_capacity` floored a partial last block). -/
+
 /-- `current_capacity` (`i32` division truncates; both operands are non-negative here). -/
-def RM.currentCapacity (l : RM) : Int :=
+def RM.currentCapacityOld (l : RM) : Int :=
   let listBlocks : Int := Int.tdiv (bytesToPagesUp (l.highWater - l.base) : Nat) l.pagesPerBlock
   l.unitsInFirstBlock + (listBlocks - 1) * l.unitsPerBlock
 
@@ -331,7 +334,7 @@ def RM.currentCapacity (l : RM) : Int :=
 def mmapOk (_start bytes : Nat) : Bool := bytes < 140737488355328
 
 /-- `raise_high_water(blocks)`.  `debug`: `Address - Address` asserts `a ≥ b`; release wraps. -/
-def RM.raiseHighWater (debug : Bool) (l : RM) (blocks : Int) : M RM := do
+def RM.raiseHighWaterOld (debug : Bool) (l : RM) (blocks : Int) : M RM := do
   let growExtent : Nat := (l.pagesPerBlock * blocks).toNat * 4096
   if l.highWater == l.limit then throw .assert       -- assert_ne!(high_water, limit)
   let growExtent ← (if l.highWater + growExtent > l.limit then
@@ -344,12 +347,46 @@ def RM.raiseHighWater (debug : Bool) (l : RM) (blocks : Int) : M RM := do
 
 /-- The address-space part of `grow_list_by_blocks(blocks, new_max)`: the grain assertion,
 `raise_high_water`, the two `assert!`s, `current_units = new_max`. -/
+def RM.growGeomOld (debug : Bool) (l : RM) (blocks newMax : Int) : M RM := do
+  if debug && !(newMax ≤ l.grain || (Int.tdiv newMax l.grain) * l.grain == newMax) then throw .assert
+  let l ← (if blocks > 0 then l.raiseHighWaterOld debug blocks else pure l)
+  if !(newMax ≤ l.currentCapacityOld) then throw .other
+  if !(newMax ≤ l.maxUnits) then throw .other
+  pure { l with currentUnits := newMax }
+
+
+/-! ### The growth functions as repaired by the `fix:` commit -/
+
+/-- repaired `current_capacity`: the units whose entries fit in the mapped bytes. -/
+def RM.currentCapacity (l : RM) : Int := ((l.highWater - l.base) / 8 : Nat) - l.tab.heads - 1
+
+/-- repaired `raise_high_water`. -/
+def RM.raiseHighWater (_debug : Bool) (l : RM) (blocks : Int) : M RM := do
+  let growExtent : Nat := (l.pagesPerBlock * blocks).toNat * 4096
+  if l.highWater == l.limit then throw .assert
+  let growExtent := if l.highWater + growExtent > l.limit then l.limit - l.highWater else growExtent
+  if !mmapOk l.highWater growExtent then throw .other
+  pure { l with highWater := (l.highWater + growExtent) % W64 }
+
+/-- `grow_list_by_blocks` (address-space part) over the repaired functions. -/
 def RM.growGeom (debug : Bool) (l : RM) (blocks newMax : Int) : M RM := do
   if debug && !(newMax ≤ l.grain || (Int.tdiv newMax l.grain) * l.grain == newMax) then throw .assert
   let l ← (if blocks > 0 then l.raiseHighWater debug blocks else pure l)
   if !(newMax ≤ l.currentCapacity) then throw .other
   if !(newMax ≤ l.maxUnits) then throw .other
   pure { l with currentUnits := newMax }
+
+def RM.blocksFor (l : RM) (required : Int) : Int :=
+  if required > l.currentCapacity then
+    Int.tdiv (required - l.currentCapacity + l.unitsPerBlock - 1) l.unitsPerBlock
+  else 0
+
+/-- `grow_freelist` over the repaired functions. -/
+def RM.growFreelistGeom (debug : Bool) (l : RM) (units : Int) : M (RM × Bool) := do
+  let required := units + l.currentUnits
+  if required > l.maxUnits then pure (l, false) else
+  let l ← l.growGeom debug (l.blocksFor required) required
+  pure (l, true)
 
 /-- `grow_list_by_blocks`: `growGeom`, then the slice is re-made over `base .. high_water`
 (freshly mapped memory is zero) and the sentinels / new free runs are written. -/
@@ -366,16 +403,16 @@ def RM.growListByBlocks (debug : Bool) (l : RM) (head : Int) (blocks newMax : In
   pure { l with tab := t }
 
 /-- The `blocks` computation of `grow_freelist`. -/
-def RM.blocksFor (l : RM) (required : Int) : Int :=
-  if required > l.currentCapacity then
-    Int.tdiv (required - l.currentCapacity + l.unitsPerBlock - 1) l.unitsPerBlock
+def RM.blocksForOld (l : RM) (required : Int) : Int :=
+  if required > l.currentCapacityOld then
+    Int.tdiv (required - l.currentCapacityOld + l.unitsPerBlock - 1) l.unitsPerBlock
   else 0
 
 /-- `grow_freelist(units)` without the table writes (address-space behaviour only). -/
-def RM.growFreelistGeom (debug : Bool) (l : RM) (units : Int) : M (RM × Bool) := do
+def RM.growFreelistGeomOld (debug : Bool) (l : RM) (units : Int) : M (RM × Bool) := do
   let required := units + l.currentUnits
   if required > l.maxUnits then pure (l, false) else
-  let l ← l.growGeom debug (l.blocksFor required) required
+  let l ← l.growGeomOld debug (l.blocksForOld required) required
   pure (l, true)
 
 /-- `grow_freelist(units)`. -/
